@@ -168,6 +168,7 @@ type c08Case struct {
 	Thr      int     `json:"thr"`
 	Fast     bool    `json:"fast"`
 	Coef     int     `json:"coef"`
+	Thr2     int     `json:"thr2"` // -1: one call; else the second half of the batch is speciated after the options' threshold was changed to this
 	Fam      int     `json:"family_size"`
 }
 
@@ -205,18 +206,40 @@ func c08Run(cs *c08Case) string {
 	}
 	m := modelOf(pop)
 	var err error
-	func() {
+	speciate := func(b []*genetics.Organism) {
 		defer func() {
 			if r := recover(); r != nil {
 				err = fmt.Errorf("panic: %v", r)
 			}
 		}()
-		err = pop.VSpeciate(opts.NeatContext(), batch)
-	}()
+		err = pop.VSpeciate(opts.NeatContext(), b)
+	}
+	if cs.Thr2 < 0 || len(batch) < 2 {
+		speciate(batch)
+		if err != nil {
+			return "speciate failed: " + err.Error()
+		}
+		return c08Follow(m, batch, opts, pop)
+	}
+	// two calls; the caller changes the threshold in the options in between (as a dynamic-threshold
+	// scheme does): the threshold in force is the one in the options at the time of the call
+	h := len(batch) / 2
+	speciate(batch[:h])
 	if err != nil {
 		return "speciate failed: " + err.Error()
 	}
-	return c08Follow(m, batch, opts, pop)
+	if msg := c08Follow(m, batch[:h], opts, pop); msg != "" {
+		return msg
+	}
+	opts.CompatThreshold = c08Thresholds[cs.Thr2]
+	speciate(batch[h:])
+	if err != nil {
+		return "speciate (second call) failed: " + err.Error()
+	}
+	if msg := c08Follow(m, batch[h:], opts, pop); msg != "" {
+		return fmt.Sprintf("after the options' threshold was changed from %g to %g: %s", c08Thresholds[cs.Thr], opts.CompatThreshold, msg)
+	}
+	return ""
 }
 
 func permutationsUpTo(items []int, maxLen int) [][]int {
@@ -304,7 +327,21 @@ func runC08(c *Ctx) {
 				for ti := range c08Thresholds {
 					for _, fast := range []bool{false, true} {
 						for li, lay := range layouts {
-							cs := &c08Case{Existing: ex, IDs: lay[0].([]int), Last: lay[1].(int), Batch: batch, Thr: ti, Fast: fast, Fam: fam, Coef: (ti + li + len(batch)) % len(c08Coefs)}
+							cs := &c08Case{Existing: ex, IDs: lay[0].([]int), Last: lay[1].(int), Batch: batch, Thr: ti, Fast: fast, Fam: fam, Coef: (ti + li + len(batch)) % len(c08Coefs), Thr2: -1}
+							if len(batch) >= 2 && li == 0 {
+								// the same batch in two calls with another threshold for the second
+								cs2 := *cs
+								cs2.Thr2 = (ti + 1 + len(batch)) % len(c08Thresholds)
+								n++
+								p += int64(len(batch))
+								if msg := c08Run(&cs2); msg != "" {
+									params := map[string]interface{}{}
+									js, _ := jsonMarshal(&cs2)
+									_ = jsonUnmarshal(js, &params)
+									c.ViolateOrd("C08/placement-after-threshold-change", int64(len(batch)*1000+len(ex)*100+ti), fmt.Sprintf("%s [existing species (family members) %v with ids %v, batch %v in two calls, fast=%v]", msg, ex, cs.IDs, batch, fast),
+										&Replay{Scenario: "batch", Params: params, Clause: msg})
+								}
+							}
 							n++
 							p += int64(len(batch))
 							if msg := c08Run(cs); msg != "" {
@@ -340,12 +377,12 @@ func runC08(c *Ctx) {
 		pl.scenarios = buildScenarios(quickCfgRows, []string{"M", "A", "R1", "R2"}, seeds, modes, fits, false)
 	} else {
 		pl.scenarios = buildScenarios(len(cfgRows), allPolicies, seeds, modes, fits, false)
-		pl.deepScenarios = buildScenarios(quickCfgRows, []string{"R1"}, seeds, modes, fits, false)
+		pl.deepScenarios = deepScenarios(seeds, modes, fits)
 		pl.deepDev, pl.shards = 2, 16
 	}
 	runEpochPlan(c, pl)
 	c.States = int64(len(c.distinct))
-	c.Rule = fmt.Sprintf("(a) family of %d structurally different genomes; existing populations = every way to pre-speciate an ordered choice of up to %d members (singleton and shared species), under two id layouts (contiguous; sparse with a higher high-water mark); batches = every ordered arrangement of up to %d further members (plus a repeated member); thresholds %v; both distance methods; three coefficient rows (rotated); the real speciate is followed organism by organism by a list-of-lists reference using the library's distance (any minimiser accepted on ties), final species lists compared. (b) the same lock-step reference on the babies of every epoch of E1 multi-epoch runs (species-wise driving, all executions within max_deviations of the base policies) and on the populations built by NewPopulation / NewPopulationRandom / ReadPopulation. states = distinct existing populations + distinct run end states, transitions = organisms placed + populations produced", fam, maxEx, maxBatch, c08Thresholds)
+	c.Rule = fmt.Sprintf("(a) family of %d structurally different genomes; existing populations = every way to pre-speciate an ordered choice of up to %d members (singleton and shared species), under two id layouts (contiguous; sparse with a higher high-water mark); batches = every ordered arrangement of up to %d further members (plus a repeated member); thresholds %v (and the same batch in two calls with the options' threshold changed in between); both distance methods; three coefficient rows (rotated); the real speciate is followed organism by organism by a list-of-lists reference using the library's distance (any minimiser accepted on ties), final species lists compared. (b) the same lock-step reference on the babies of every epoch of E1 multi-epoch runs (species-wise driving, all executions within max_deviations of the base policies) and on the populations built by NewPopulation / NewPopulationRandom / ReadPopulation. states = distinct existing populations + distinct run end states, transitions = organisms placed + populations produced", fam, maxEx, maxBatch, c08Thresholds)
 	c.Assume("the oracle uses the library's own distance function, so C08 is independent of C07")
 	c.Assume("Go toolchain, go build -overlay, the instrumenter and the accessor file are trusted")
 }
